@@ -330,3 +330,186 @@ Proof.
 Qed.
 
 End Binding.
+
+(* ---- byte-level injectivity of the transcripts ----------------------------------- *)
+
+Lemma app_inj_len : forall {A} (a a' b b' : list A),
+  length a = length a' -> a ++ b = a' ++ b' -> a = a' /\ b = b'.
+Proof.
+  intros A a. induction a as [|x a IH]; intros a' b b' Hl He; destruct a' as [|x' a']; cbn in Hl; try discriminate.
+  - split; [reflexivity | exact He].
+  - cbn in He. injection He as Ex Er. destruct (IH a' b b' ltac:(lia) Er) as [E1 E2]. subst. split; reflexivity.
+Qed.
+
+Lemma app_inj_len_tail : forall {A} (a a' b b' : list A),
+  length b = length b' -> a ++ b = a' ++ b' -> a = a' /\ b = b'.
+Proof.
+  intros A a a' b b' Hl He. apply app_inj_len; [|exact He].
+  apply (f_equal (@length A)) in He. rewrite !app_length in He. lia.
+Qed.
+
+Lemma be_bytes_length : forall n v, length (be_bytes n v) = n.
+Proof.
+  induction n as [|n IH]; intros v; cbn [be_bytes]; [reflexivity|].
+  rewrite app_length, IH. cbn. lia.
+Qed.
+
+Lemma be_bytes_inj : forall n v w,
+  (v < 2 ^ (8 * N.of_nat n))%N -> (w < 2 ^ (8 * N.of_nat n))%N -> be_bytes n v = be_bytes n w -> v = w.
+Proof.
+  induction n as [|n IH]; intros v w Hv Hw He.
+  - cbn in Hv, Hw. lia.
+  - cbn [be_bytes] in He. apply app_inj_tail in He. destruct He as [E1 E2].
+    replace (8 * N.of_nat (S n))%N with (8 + 8 * N.of_nat n)%N in Hv, Hw by lia.
+    rewrite N.pow_add_r in Hv, Hw.
+    assert (Hd : forall x, (x < 2 ^ 8 * 2 ^ (8 * N.of_nat n))%N -> (N.shiftr x 8 < 2 ^ (8 * N.of_nat n))%N).
+    { intros x Hx. rewrite N.shiftr_div_pow2. apply N.div_lt_upper_bound; [discriminate | exact Hx]. }
+    pose proof (IH _ _ (Hd v Hv) (Hd w Hw) E1) as E3.
+    change 255%N with (N.ones 8) in E2. rewrite !N.land_ones in E2. rewrite !N.shiftr_div_pow2 in E3.
+    rewrite (N.div_mod' v (2 ^ 8)), (N.div_mod' w (2 ^ 8)), E2, E3. reflexivity.
+Qed.
+
+Lemma u32be_length : forall i, length (u32be i) = 4%nat.
+Proof. intros. unfold u32be. apply be_bytes_length. Qed.
+
+Lemma bytes32_length : forall v, length (bytes32 v) = 32%nat.
+Proof. intros. unfold bytes32. apply be_bytes_length. Qed.
+
+Lemma u32be_inj : forall i j, 0 <= i < 2 ^ 32 -> 0 <= j < 2 ^ 32 -> u32be i = u32be j -> i = j.
+Proof.
+  intros i j Hi Hj He. unfold u32be in He. rewrite !Z.mod_small in He by assumption.
+  apply be_bytes_inj in He.
+  - apply Z2N.inj; lia.
+  - change (2 ^ (8 * N.of_nat 4))%N with (Z.to_N (2 ^ 32)). apply Z2N.inj_lt; lia.
+  - change (2 ^ (8 * N.of_nat 4))%N with (Z.to_N (2 ^ 32)). apply Z2N.inj_lt; lia.
+Qed.
+
+Definition n256 : N := (2 ^ 256)%N.
+
+Lemma bytes32_inj : forall v w, (v < n256)%N -> (w < n256)%N -> bytes32 v = bytes32 w -> v = w.
+Proof. intros v w Hv Hw He. unfold bytes32 in He. apply be_bytes_inj in He; assumption. Qed.
+
+Section Transcripts.
+Variable l : Z.
+Variable enc : Z -> N.
+(* the point encoding is injective on [0,l) and 32 bytes wide *)
+Hypothesis enc_inj : forall a b, 0 <= a < l -> 0 <= b < l -> enc a = enc b -> a = b.
+Hypothesis enc_range : forall a, (enc a < n256)%N.
+
+Definition entry_ok (ik : Z * Z) : Prop := 0 <= fst ik < 2 ^ 32 /\ 0 <= snd ik < l.
+
+Definition entry_bytes (ik : Z * Z) : list N := u32be (fst ik) ++ bytes32 (enc (snd ik)).
+
+Lemma entry_bytes_length : forall ik, length (entry_bytes ik) = 36%nat.
+Proof. intros. unfold entry_bytes. rewrite app_length, u32be_length, bytes32_length. reflexivity. Qed.
+
+Lemma entry_bytes_inj : forall ik ik', entry_ok ik -> entry_ok ik' -> entry_bytes ik = entry_bytes ik' -> ik = ik'.
+Proof.
+  intros [i k] [i' k'] [Hi Hk] [Hi' Hk'] He. unfold entry_bytes in He. cbn [fst snd] in *.
+  apply app_inj_len in He; [|rewrite !u32be_length; reflexivity]. destruct He as [E1 E2].
+  apply u32be_inj in E1; try assumption. apply bytes32_inj in E2; try apply enc_range.
+  apply enc_inj in E2; try assumption. subst. reflexivity.
+Qed.
+
+Lemma sel_bytes_inj : forall sel sel', Forall entry_ok sel -> Forall entry_ok sel' ->
+  flat_map entry_bytes sel = flat_map entry_bytes sel' -> sel = sel'.
+Proof.
+  induction sel as [|ik sel IH]; intros sel' HF HF' He; destruct sel' as [|ik' sel'].
+  - reflexivity.
+  - exfalso. apply (f_equal (@length N)) in He. cbn [flat_map] in He.
+    rewrite app_length, entry_bytes_length in He. cbn in He. lia.
+  - exfalso. apply (f_equal (@length N)) in He. cbn [flat_map] in He.
+    rewrite app_length, entry_bytes_length in He. cbn in He. lia.
+  - cbn [flat_map] in He. apply app_inj_len in He; [|rewrite !entry_bytes_length; reflexivity].
+    destruct He as [E1 E2]. inversion HF; inversion HF'; subst.
+    apply entry_bytes_inj in E1; try assumption. subst ik'. f_equal. apply IH; assumption.
+Qed.
+
+(* the signer transcript determines the signer list and the keys at those positions *)
+Lemma transcript_inj : forall sel sel', Forall entry_ok sel -> Forall entry_ok sel' ->
+  transcript enc sel = transcript enc sel' -> sel = sel'.
+Proof.
+  intros sel sel' HF HF' He. unfold transcript in He.
+  apply app_inj_len in He; [|rewrite !u32be_length; reflexivity]. destruct He as [_ E].
+  apply sel_bytes_inj; assumption.
+Qed.
+
+(* a coefficient transcript determines the signer transcript, the index and the key *)
+Lemma coef_input_inj : forall tr tr' ik ik', entry_ok ik -> entry_ok ik' ->
+  coef_input enc tr ik = coef_input enc tr' ik' -> tr = tr' /\ ik = ik'.
+Proof.
+  intros tr tr' ik ik' Hk Hk' He. unfold coef_input in He. apply app_inv_head in He.
+  fold (entry_bytes ik) in He. fold (entry_bytes ik') in He.
+  apply app_inj_len_tail in He; [|rewrite !entry_bytes_length; reflexivity].
+  destruct He as [E1 E2]. split; [exact E1 | apply entry_bytes_inj; assumption].
+Qed.
+
+(* the challenge transcript determines R, the aggregated key and the message *)
+Lemma challenge_input_inj : forall r a m r' a' m', (m < n256)%N -> (m' < n256)%N ->
+  challenge_input enc r a m = challenge_input enc r' a' m' -> enc r = enc r' /\ enc a = enc a' /\ m = m'.
+Proof.
+  intros r a m r' a' m' Hm Hm' He. unfold challenge_input in He.
+  apply app_inj_len in He; [|rewrite !bytes32_length; reflexivity]. destruct He as [E1 He].
+  apply app_inj_len in He; [|rewrite !bytes32_length; reflexivity]. destruct He as [E2 E3].
+  apply bytes32_inj in E1; try apply enc_range. apply bytes32_inj in E2; try apply enc_range.
+  apply bytes32_inj in E3; try assumption. tauto.
+Qed.
+
+Variable H : list N -> Z.
+
+Lemma sel_entries_ok : forall keys signers, signers_ok l keys signers ->
+  Z.of_nat (length keys) <= 2 ^ 32 -> Forall entry_ok (sel_of keys signers).
+Proof.
+  intros keys signers (_ & Hinc & HF) Hlen. unfold sel_of. rewrite Forall_map.
+  assert (Hge : forall prev s, -1 <= prev -> increasing prev s -> Forall (fun i => 0 <= i) s).
+  { intros prev s. revert prev. induction s as [|i s IH]; intros prev Hp Hi; constructor.
+    - destruct Hi; lia.
+    - destruct Hi as [Hi1 Hi2]. apply (IH i); [lia | exact Hi2]. }
+  pose proof (Hge (-1) signers ltac:(lia) Hinc) as H0.
+  rewrite Forall_forall in *. intros i Hi. destruct (HF i Hi) as [Hlt Hp]. apply point_ok_iff in Hp.
+  specialize (H0 i Hi). unfold entry_ok. cbn [fst snd]. lia.
+Qed.
+
+(* binding, stated over signer sets, keys and message: a signature accepted in
+   two contexts means (i) same signer list, same keys at those positions, same
+   message; or (ii) two different signer transcripts whose weighted keys collide
+   although every coefficient is the hash of a different input; or (iii) the
+   hash of a different challenge transcript equals the one value c.A/A'. *)
+Lemma binding_sets : forall r s keys signers m keys' signers' m', prime l ->
+  (m < n256)%N -> (m' < n256)%N ->
+  Z.of_nat (length keys) <= 2 ^ 32 -> Z.of_nat (length keys') <= 2 ^ 32 ->
+  aggregate_verify l enc H r s keys signers m = Ok tt ->
+  aggregate_verify l enc H r s keys' signers' m' = Ok tt ->
+  let sel := sel_of keys signers in let sel' := sel_of keys' signers' in
+  let a := weighted_key_of l enc H sel in let a' := weighted_key_of l enc H sel' in
+  (sel = sel' /\ m = m') \/
+  (sel <> sel' /\ m = m' /\ a = a' /\
+   forall ik ik', In ik sel -> In ik' sel' ->
+     coef_input enc (transcript enc sel) ik <> coef_input enc (transcript enc sel') ik') \/
+  (challenge_input enc r a m <> challenge_input enc r a' m' /\
+   exists w, (a' * w) mod l = 1 mod l /\
+             H (challenge_input enc r a' m') mod l = (H (challenge_input enc r a m) * a * w) mod l).
+Proof.
+  intros r s keys signers m keys' signers' m' Hp Hm Hm' Hlen Hlen' H1 H2. cbv zeta.
+  assert (Hl : 0 < l) by (destruct Hp; lia).
+  pose proof (sel_entries_ok _ _ (verify_ok_signers l enc H _ _ _ _ _ H1) Hlen) as HF.
+  pose proof (sel_entries_ok _ _ (verify_ok_signers l enc H _ _ _ _ _ H2) Hlen') as HF'.
+  set (sel := sel_of keys signers) in *. set (sel' := sel_of keys' signers') in *.
+  set (a := weighted_key_of l enc H sel). set (a' := weighted_key_of l enc H sel').
+  destruct (list_eq_dec N.eq_dec (challenge_input enc r a m) (challenge_input enc r a' m')) as [E|E].
+  - destruct (challenge_input_inj _ _ _ _ _ _ Hm Hm' E) as (_ & Ea & Em).
+    assert (Eaa : a = a').
+    { apply enc_inj; [apply fsum_range; exact Hl | apply fsum_range; exact Hl | exact Ea]. }
+    assert (Hdec : {sel = sel'} + {sel <> sel'}).
+    { apply list_eq_dec. intros [x y] [x' y']. destruct (Z.eq_dec x x'), (Z.eq_dec y y'); subst;
+        [left; reflexivity | right; congruence | right; congruence | right; congruence]. }
+    destruct Hdec as [Es|Es]; [left; split; assumption|].
+    right; left. repeat split; try assumption.
+    intros ik ik' Hin Hin' Ec. rewrite Forall_forall in HF, HF'.
+    destruct (coef_input_inj _ _ _ _ (HF _ Hin) (HF' _ Hin') Ec) as [Etr _].
+    apply Es. apply transcript_inj; [apply Forall_forall; exact HF | apply Forall_forall; exact HF' | exact Etr].
+  - right; right. split; [exact E|].
+    exact (binding_challenge l enc H _ _ _ _ _ _ _ _ Hp H1 H2).
+Qed.
+
+End Transcripts.
